@@ -18,6 +18,9 @@ impl ArrayFlags {
     pub const SORTED_DOWN: Self = ArrayFlags(8);
     pub const VALUE: Self = ArrayFlags(1 | 2);
     pub const SORTEDNESS: Self = ArrayFlags(4 | 8);
+    pub fn empty() -> Self {
+        ArrayFlags(0)
+    }
     pub fn bits(&self) -> u8 {
         self.0
     }
@@ -69,19 +72,64 @@ impl BitOrAssign for ArrayFlags {
 #[derive(Debug, Clone, Default, PartialEq, Eq)]
 pub struct MapKeys {
     pub reversed: usize,
+    /// opaque identity of the key set (the real type is a hash table, src/algorithm/map.rs)
+    pub token: u8,
 }
 impl MapKeys {
     pub fn reverse(&mut self) {
         self.reversed += 1;
     }
+    /// ASSUMED CONTRACT (src/algorithm/map.rs MapKeys::normalized + Array::map): `map(normalized(k))` installs
+    /// a key set that is observably `k` again.  Modelled by carrying the token through a `Value`.
+    pub fn normalized(self) -> Value {
+        Value::Keys(self.token, self.reversed)
+    }
 }
+#[derive(Debug, Clone, PartialEq, Eq)]
+pub enum Value {
+    Keys(u8, usize),
+}
+pub struct Context;
+impl Context {
+    pub const NONE: Context = Context;
+}
+/// stand-ins for the three foreign field types of ArrayMetaInner
+pub type EcoString = u8;
 #[derive(Debug, Clone, Default, PartialEq, Eq)]
-pub struct ArrayMetaInner {
-    pub flags: ArrayFlags,
-    pub map_keys: Option<MapKeys>,
+pub struct MetaPtr(pub u8);
+#[derive(Debug, Clone, Default, PartialEq, Eq)]
+pub struct HandleKind(pub u8);
+pub type CowSlice<T> = Data<T>;
+impl<const N: usize> From<[usize; N]> for Shape {
+    fn from(a: [usize; N]) -> Self {
+        Shape(a.to_vec())
+    }
 }
-pub static DEFAULT_META_INNER: ArrayMetaInner = ArrayMetaInner { flags: ArrayFlags::NONE, map_keys: None };
-
+impl From<usize> for Shape {
+    fn from(n: usize) -> Self {
+        Shape(vec![n])
+    }
+}
+impl<T, const N: usize> From<[T; N]> for Data<T> {
+    fn from(a: [T; N]) -> Self {
+        Data(Vec::from(a))
+    }
+}
+impl<T> Array<T> {
+    /// src/array.rs:418 Array::new (same body)
+    pub fn new(shape: impl Into<Shape>, data: impl Into<CowSlice<T>>) -> Self {
+        let shape = shape.into();
+        let data = data.into();
+        validate_shape(&shape, data.len());
+        Self { shape, data, meta: ArrayMeta::default() }
+    }
+    /// model of Array::map (src/algorithm/map.rs:50): installs the key set carried by `keys`
+    pub fn map(&mut self, keys: Value, _ctx: Context) -> Result<(), ()> {
+        let Value::Keys(token, reversed) = keys;
+        self.meta.map_keys = Some(MapKeys { reversed, token });
+        Ok(())
+    }
+}
 #[derive(Debug, Clone, Default)]
 pub struct Shape(pub Vec<usize>);
 impl Deref for Shape {
